@@ -60,6 +60,18 @@ def run(tier):
             ck.violation("parentheses-change-result" if outs[0][0].startswith("ok") else "valid-rejected:" + outs[0][0].split(" ")[0],
                          "the same program with x, (x) and ((x)) gives %s" % (outs,), dict(pcases)["pp%d.1" % ki])
     ck.log("parenthesisation: %d kinds of values x 3 spellings, %d problems" % (len(kinds), pbad))
+    # a string literal is printed with all its bytes (D72: a NUL byte ends what print!/format! write)
+    nul = [("nz0", 'fn main() -> u8\n{\n\tprint!("a\\0b|\\n");\n\treturn: 0\n}\n', b"a\x00b|\n"),
+           ("nz1", 'fn main() -> u8\n{\n\tvar x: i32 = 7;\n\tprint!("a\\0b|", x, "\\n");\n\treturn: 0\n}\n', b"a\x00b|7\n"),
+           ("nz2", 'fn main() -> u8\n{\n\tvar x: i32 = 7;\n\tprint!("100%% of ", x, "%d%s\\n");\n\treturn: 0\n}\n', b"100%% of 7%d%s\n")]
+    nimpl = C.run_harness("exec", [(a, b) for a, b, _ in nul], ck.work + "/nul", timeout=300)
+    for cid, src, want in nul:
+        f = nimpl.get(cid, ["missing"])
+        got = C.unesc(f[1].split(" out=", 1)[1].split(" stderr=")[0]) if f[0].startswith("ok") and " out=" in f[1] else f[0].encode()
+        if got != want:
+            parts = want.split(b"\x00")
+            cut = b"\x00" in want and (got == parts[0] or got == parts[0] + parts[1][parts[1].index(b"|") + 1:])     # (the literal ends at its NUL, later items are written)
+            ck.violation("print-truncates-at-nul" if cut else "wrong-print-output", "print! of string literals writes %r, the literals' bytes are %r" % (got, want), src)
     # precedence and associativity: the unparenthesised spelling means the documented grouping (unary operators
     # bind tighter than `as`, `as` chains to the left, * / % chain to the left, + - chain to the left over them),
     # on boundary values where the other grouping gives another result; expected values from the interpreter
